@@ -27,6 +27,7 @@ type MergeCase struct {
 func genMergeCase() *rapid.Generator[MergeCase] {
 	return rapid.Custom(func(t *rapid.T) MergeCase {
 		o := mergeHeavyOpts
+		o.GroupedParts = chance(t, "grouped", 35)
 		h := drawHistory(t, o)
 		// strip the trailing merges: the case's own merges run under observation
 		for len(h.Steps) > 0 && h.Steps[len(h.Steps)-1].Op == "merge" {
@@ -52,7 +53,7 @@ func genMergeCase() *rapid.Generator[MergeCase] {
 				c.RGRows = pick(t, "trows", []int{2, 3, 4, 6})
 			}
 			if chance(t, "tightbytes", 40) {
-				c.RGBytes = pick(t, "tbytes", []int{150, 300, 600, 1200})
+				c.RGBytes = pick(t, "tbytes", []int{150, 300, 600, 1200, 2500, 5000})
 			}
 			if chance(t, "tightfile", 40) {
 				c.MaxFileSize = pick(t, "tfile", []int{300, 800, 2000, 5000})
